@@ -96,6 +96,15 @@ class AssetDcf(Contract):
         p = z3.Int('menu!p')
         return [z3.ForAll([p], mine(p) == (F['asset'](p) == name)), ctx['g'].get('T') >= 1], []
 
+    def sample(self, case, rng):
+        """random instance satisfying WF_OP: rows point to existing variables and to steps of the grid"""
+        from pyvc import native as N
+        T, nv = rng.randint(1, 4), rng.randint(1, 4)
+        R = rng.randint(0, 6)
+        return N.Params(g_T=T, n_rows=R, n_vars=nv, map_index=[rng.randint(0, nv - 1) for _ in range(R)],
+                        map_step=[rng.randint(0, T - 1) for _ in range(R)], map_asset_is_mine=[rng.random() < 0.7 for _ in range(R)],
+                        c=[rng.choice(N.VALUES) for _ in range(nv)], x=[rng.choice(N.VALUES) for _ in range(nv)])
+
     def native(self, case, P):
         import numpy as np
         import pandas as pd
@@ -215,6 +224,18 @@ class StorageFillLevel(Contract):
         mine = z3.Function('map_row_is_mine', z3.IntSort(), z3.BoolSort())
         p = z3.Int('menu!p')
         return [z3.ForAll([p], mine(p) == z3.And(F['asset'](p) == name, F['type'](p) == sym.strlit('d'))), ctx['g'].get('T') >= 1], []
+
+    def sample(self, case, rng):
+        from pyvc import native as N
+        T, nv = rng.randint(1, 4), rng.randint(1, 4)
+        R = rng.randint(0, 6)
+        a = rng.randint(0, T) if case.get('window') == 'own' else 0
+        b = rng.randint(a, T) if case.get('window') == 'own' else T
+        return N.Params(g_T=T, n_rows=R, n_vars=nv, win_a=a, win_b=b, eff_in=rng.choice([1.0, 0.9, 0.5]), start_level=rng.choice([0.0, 1.0]),
+                        inflow=rng.choice([0.0, 0.5, 1.0]), map_index=[rng.randint(0, nv - 1) for _ in range(R)],
+                        map_step=[rng.randint(0, T - 1) for _ in range(R)], map_row_is_mine=[rng.random() < 0.7 for _ in range(R)],
+                        g_dt=[rng.choice(N.POS) for _ in range(T)] if rng.random() < 0.6 else [1.0] * T,
+                        x=[rng.choice(N.VALUES) for _ in range(nv)])
 
     def native(self, case, P):
         import numpy as np
